@@ -319,7 +319,7 @@ def gen_spec(rng):
         vals = list(range(n)) if rng.random() < 0.5 else rng.sample(range(n + 1), n)
         spec.impacts = [str(v) for v in vals]
     elif r < 0.4:
-        spec.impacts = ["%.1e" % (off + 0.5 * i + 1) for i in range(n)]
+        spec.impacts = ["%.3e" % (off + 0.5 * i + 1) for i in range(n)]
     else:
         spec.impacts = ["%.3f" % (off + 0.5 * i) for i in range(n)]
     if rng.random() < 0.12:
